@@ -385,34 +385,115 @@ Qed.
 Lemma comment_text_print : forall lay, forallb is_print (fst (comment_text lay)) = true.
 Proof. intros lay. unfold comment_text. destruct (next lay) as [k l1]. apply ctext_print. Qed.
 
-(* a filler line: empty, or [pre] followed by printable bytes *)
-Definition filler_line (pre : bytes) (spaced : bool) (l : bytes) : Prop :=
-  l = [] \/ exists t, forallb is_print t = true /\
-                      l = pre ++ (if spaced then (match t with [] => [] | _ => SP :: t end) else t).
+(* a filler line: blanks only, or (blanks) [pre] followed by printable bytes *)
+Definition filler_line (pre : bytes) (spaced leadok : bool) (l : bytes) : Prop :=
+  forallb is_blank l = true \/
+  exists ld t, forallb is_blank ld = true /\ (leadok = false -> ld = []) /\
+               forallb is_print t = true /\
+               l = ld ++ pre ++ (if spaced then (match t with [] => [] | _ => SP :: t end) else t).
 
-Lemma filler_spec : forall pre spaced c lay,
-  Forall (fun l => filler_line pre spaced (fst l)) (fst (filler pre spaced c lay)).
+Lemma filler_spec : forall pre spaced leadok c lay,
+  Forall (fun l => filler_line pre spaced leadok (fst l)) (fst (filler pre spaced leadok c lay)).
 Proof.
   induction c as [|c IH]; intros lay; [constructor|].
   cbn [filler]. destruct (next lay) as [k l1]. destruct (next l1) as [e l2].
+  pose proof (sep0_inline l2) as Hld. destruct (sep0 l2) as [ld l2']. cbn [fst] in Hld.
   destruct (Nat.even k).
-  - pose proof (comment_text_print l2) as Ht. destruct (comment_text l2) as [t l3].
-    specialize (IH l3). destruct (filler pre spaced c l3) as [r l4]. cbn [fst] in *.
-    constructor; [|exact IH]. right. exists t. split; [exact Ht|reflexivity].
-  - specialize (IH l2). destruct (filler pre spaced c l2) as [r l3]. cbn [fst] in *.
-    constructor; [|exact IH]. left. reflexivity.
+  - pose proof (comment_text_print l2') as Ht. destruct (comment_text l2') as [t l3].
+    specialize (IH l3). destruct (filler pre spaced leadok c l3) as [r l4]. cbn [fst] in *.
+    constructor; [|exact IH]. right. exists (if leadok then ld else []), t.
+    split; [destruct leadok; [exact Hld|reflexivity]|].
+    split; [intros ->; reflexivity|]. split; [exact Ht|reflexivity].
+  - specialize (IH l2'). destruct (filler pre spaced leadok c l2') as [r l3]. cbn [fst] in *.
+    constructor; [|exact IH]. left. exact Hld.
 Qed.
 
-Lemma gen_filler_spec : forall pre spaced lay,
-  Forall (fun l => filler_line pre spaced (fst l)) (fst (gen_filler pre spaced lay)).
+Lemma gen_filler_spec : forall pre spaced leadok lay,
+  Forall (fun l => filler_line pre spaced leadok (fst l)) (fst (gen_filler pre spaced leadok lay)).
 Proof. intros. unfold gen_filler. destruct (next lay) as [k l1]. apply filler_spec. Qed.
 
-Lemma filler_line_clean : forall pre spaced l,
-  forallb is_print pre = true -> filler_line pre spaced l -> clean l.
+Lemma filler_line_clean : forall pre spaced leadok l,
+  forallb is_print pre = true -> filler_line pre spaced leadok l -> clean l.
 Proof.
-  intros pre spaced l Hp [->|[t [Ht ->]]]; [reflexivity|].
+  intros pre spaced leadok l Hp [Hb|[ld [t [Hld [_ [Ht ->]]]]]]; [apply clean_blanks; exact Hb|].
+  apply clean_app; [apply clean_blanks; exact Hld|].
   apply clean_print. rewrite forallb_app, Hp. destruct spaced; [|exact Ht].
   destruct t; [reflexivity|]. cbn [forallb]. cbn [forallb] in Ht. rewrite Ht. reflexivity.
+Qed.
+
+(* ------------------------------------------------------------------ *)
+(* strings.TrimSpace *)
+
+Lemma drop_fspace_app : forall ws s, forallb is_fspace ws = true ->
+  drop_fspace (ws ++ s) = drop_fspace s.
+Proof.
+  induction ws as [|c ws IH]; intros s H; [reflexivity|].
+  cbn [forallb] in H. apply andb_true_iff in H. destruct H as [H1 H2].
+  cbn [app drop_fspace]. rewrite H1. apply IH. exact H2.
+Qed.
+
+Lemma drop_fspace_all : forall ws, forallb is_fspace ws = true -> drop_fspace ws = [].
+Proof.
+  intros ws H. rewrite <- (app_nil_r ws), drop_fspace_app by exact H. reflexivity.
+Qed.
+
+Lemma forallb_rev : forall (p : ascii -> bool) l, forallb p (rev l) = forallb p l.
+Proof.
+  intros p l. induction l as [|c l IH]; [reflexivity|].
+  cbn [rev forallb]. rewrite forallb_app, IH. cbn [forallb]. rewrite andb_true_r. apply andb_comm.
+Qed.
+
+Lemma trim_space_blank : forall l, forallb is_fspace l = true -> trim_space l = [].
+Proof. intros l H. unfold trim_space. rewrite (drop_fspace_all l H). reflexivity. Qed.
+
+(* a line whose first and last bytes (after / before the blanks) are not blanks *)
+Lemma trim_space_core : forall lead c0 mid x trail,
+  forallb is_fspace lead = true -> forallb is_fspace trail = true ->
+  is_fspace c0 = false -> is_fspace x = false ->
+  trim_space (lead ++ (c0 :: mid ++ [x]) ++ trail) = c0 :: mid ++ [x].
+Proof.
+  intros lead c0 mid x trail Hl Ht Hc Hx. unfold trim_space.
+  set (body := c0 :: mid ++ [x]).
+  assert (H1 : drop_fspace (lead ++ body ++ trail) = body ++ trail).
+  { rewrite drop_fspace_app by exact Hl. unfold body. cbn [app drop_fspace]. rewrite Hc.
+    reflexivity. }
+  rewrite H1, rev_app_distr, drop_fspace_app by (rewrite forallb_rev; exact Ht).
+  assert (H2 : rev body = x :: rev (c0 :: mid)).
+  { unfold body. change (c0 :: mid ++ [x]) with ((c0 :: mid) ++ [x]). rewrite rev_app_distr.
+    reflexivity. }
+  rewrite H2. cbn [drop_fspace]. rewrite Hx. rewrite <- H2. apply rev_involutive.
+Qed.
+
+Lemma trim_space_single : forall lead c0 trail,
+  forallb is_fspace lead = true -> forallb is_fspace trail = true ->
+  is_fspace c0 = false -> trim_space (lead ++ [c0] ++ trail) = [c0].
+Proof.
+  intros lead c0 trail Hl Ht Hc. unfold trim_space.
+  rewrite drop_fspace_app by exact Hl. cbn [app drop_fspace]. rewrite Hc.
+  change (c0 :: trail) with ([c0] ++ trail).
+  rewrite rev_app_distr. rewrite drop_fspace_app by (rewrite forallb_rev; exact Ht).
+  cbn [rev app drop_fspace]. rewrite Hc. reflexivity.
+Qed.
+
+Lemma drop_fspace_snoc : forall s c, is_fspace c = false ->
+  exists y, drop_fspace (s ++ [c]) = y ++ [c].
+Proof.
+  induction s as [|a s IH]; intros c Hc.
+  - exists []. cbn [app drop_fspace]. rewrite Hc. reflexivity.
+  - cbn [app drop_fspace]. destruct (is_fspace a).
+    + apply IH. exact Hc.
+    + exists (a :: s). reflexivity.
+Qed.
+
+(* the first non-blank byte of a line is the first byte of the trimmed line *)
+Lemma trim_space_head : forall lead c0 t,
+  forallb is_fspace lead = true -> is_fspace c0 = false ->
+  exists t', trim_space (lead ++ c0 :: t) = c0 :: t'.
+Proof.
+  intros lead c0 t Hl Hc. unfold trim_space.
+  rewrite drop_fspace_app by exact Hl. cbn [drop_fspace]. rewrite Hc. cbn [rev].
+  destruct (drop_fspace_snoc (rev t) c0 Hc) as [y Ey]. rewrite Ey, rev_app_distr.
+  cbn [rev app]. eexists. reflexivity.
 Qed.
 
 Lemma spaced_toks_spec : forall ts lay, Forall gtok ts ->
